@@ -3,6 +3,7 @@ package authboss
 import (
 	"context"
 	"net/http"
+	"strings"
 
 	"github.com/friendsofgo/errors"
 )
@@ -13,6 +14,50 @@ const (
 	// FollowRedirParam is set to true.
 	FormValueRedirect = "redir"
 )
+
+// IsLocalRedirect reports whether a client-supplied redirect target stays on
+// this site when a browser resolves it against one of our pages. Only paths
+// (absolute or relative, with optional query and fragment) are local: anything
+// that names a scheme ("https://host", "https:host", "javascript:...") or that
+// browsers read as scheme-relative ("//host", "/\\host", "\\host" - they treat a
+// backslash as a slash, drop TAB, CR and LF anywhere and leading spaces and
+// control characters) is not.
+//
+// HTTPRedirector implementations should use it before honouring
+// FormValueRedirect (see RedirectOptions.FollowRedirParam).
+func IsLocalRedirect(target string) bool {
+	s := strings.Map(func(r rune) rune {
+		if r == '\t' || r == '\n' || r == '\r' {
+			return -1
+		}
+		return r
+	}, target)
+	s = strings.TrimLeftFunc(s, func(r rune) bool { return r <= ' ' })
+
+	isSlash := func(c byte) bool { return c == '/' || c == '\\' }
+	if len(s) > 0 && s[0] == '\\' {
+		return false
+	}
+	if len(s) > 1 && isSlash(s[0]) && isSlash(s[1]) {
+		return false
+	}
+
+	// scheme = ALPHA *( ALPHA / DIGIT / "+" / "-" / "." ) followed by ":"
+	for i := 0; i < len(s); i++ {
+		c := s[i]
+		alpha := c >= 'a' && c <= 'z' || c >= 'A' && c <= 'Z'
+		other := c >= '0' && c <= '9' || c == '+' || c == '-' || c == '.'
+		if alpha || (i > 0 && other) {
+			continue
+		}
+		if i > 0 && c == ':' {
+			return false
+		}
+		break
+	}
+
+	return true
+}
 
 // HTTPResponder knows how to respond to an HTTP request
 // Must consider:
